@@ -154,7 +154,7 @@ func c12SearchDriver(s *propSpec, b *build, a *agg) {
 	args := append(baseArgs(s, b), "-ref", refPath)
 	seqRuns, concRuns := int64(6000), int64(480)
 	if tier == "thorough" {
-		seqRuns, concRuns = 2400000, 100000
+		seqRuns, concRuns = 1200000, 60000
 	}
 	if *flagRuns > 0 {
 		seqRuns, concRuns = *flagRuns, *flagRuns/16+1
@@ -163,7 +163,14 @@ func c12SearchDriver(s *propSpec, b *build, a *agg) {
 		fanOut(a, b.plain, false, append(append([]string{}, args...), "-mode", "seq"), seqRuns, numWorkers(), 1)
 	}
 	if *flagMode == "" || *flagMode == "conc" {
-		fanOut(a, b.race, true, append(append([]string{}, args...), "-mode", "conc"), concRuns, numWorkers(), 1)
+		// concurrent workers are recycled after a few runs: what two goroutines do
+		// to never-initialised process-wide state only shows in the first run of a
+		// process
+		maxRuns := "4"
+		if tier == "thorough" {
+			maxRuns = "40"
+		}
+		fanOut(a, b.race, true, append(append([]string{}, args...), "-mode", "conc", "-maxruns", maxRuns), concRuns, numWorkers(), 1)
 	}
 	if len(suspects) > 0 && len(a.fails) == 0 {
 		a.harness = append(a.harness, fmt.Sprintf("the uninstrumented build disagrees with the instrumented reference on %v but the seeded search reproduced nothing: either the instrumentation changes behaviour or there is nondeterminism outside the simulator's seams", suspects))
